@@ -9,8 +9,8 @@
    Not in the model: the main thread building the next job while the queue's feeder thread pickles the previous one
    (the model treats jobs as given); the one interference found there (job-pickling-race, fixed by e882fb2) is held by
    the harness obligation regression:job-pickling-race (pickle_walk case), not by a theorem. *)
-From Coq Require Import List Bool Arith Permutation.
-From PAFC14 Require Import Model Lib Proofs1 Proofs2 Proofs3 Proofs4 Proofs5 Proofs6 Witness.
+From Coq Require Import List Bool Arith ZArith Permutation.
+From PAFC14 Require Import Model Lib Proofs1 Proofs2 Proofs3 Proofs4 Proofs5 Proofs6 Proofs7 Witness.
 Import ListNotations.
 
 (* ================= A. SneakyPool.map (ordered blocking collection) ================= *)
@@ -162,9 +162,57 @@ Theorem C14_jobs_termination_legacy_refuted :
               jdone s = false /\ jtaken s = [] /\ jq s = enum outs.
 Proof. exact jobs_termination_refuted. Qed.
 
+(* ================= E. the answer depends on the current inputs only, not on the history of uses ================= *)
+
+(* FULL: jobs queued in ANY order of their numbers (outs' = the outcomes listed by number): every schedule of a finished
+   call gives ResultBuilder / sorted(results) in NUMBER order *)
+Theorem C14_jobs_keyed_any_numbering : forall (R E : Type) nw (jobs : list (nat * outcome R E)) (outs' : list (outcome R E)) fixed sched s,
+  s = jrun fixed sched (jstart nw jobs) -> jdone s = true ->
+  Permutation jobs (enum outs') -> (forall e, ~ In (Exc e) outs') ->
+  summaries (length outs') (good (jtaken s)) = map Some outs' /\ sorted_results (good (jtaken s)) = enum outs'.
+Proof. exact @jobs_keyed_any_numbering. Qed.
+
+(* FULL: explicit job numbers do not depend on the class-level counter AbstractJob._number (on how many SneakyJobs or
+   unnumbered jobs earlier batches have built), and leave it alone *)
+Theorem C14_numbering_history_free : forall specs c, explicit specs -> assign false c specs = (asked specs, c).
+Proof. exact numbering_history_free. Qed.
+
+Theorem C14_numbering_counter : forall specs c,
+  snd (assign false c specs) = c + length (filter (fun sp => match sp with None => true | Some _ => false end) specs).
+Proof. exact numbering_counter. Qed.
+
+(* REFUTED for the slip `number or next(counter)` (seeded change explicit-job-number-zero-falsy) *)
+Theorem C14_numbering_zero_is_missing_refuted :
+  exists specs c, explicit specs /\ fst (assign true c specs) <> asked specs.
+Proof. exact numbering_zero_is_missing_refuted. Qed.
+
+(* SneakierPool and the class-global FunctionCache as a state machine with an explicit cache policy.
+   FULL for the policy "install at enter" (proposed_fixes/C14-sneakier-install-at-enter.diff): EVERY history of
+   constructions, with-blocks and maps gives each pool's own function on its own inputs *)
+Theorem C14_sneakier_install_at_enter : forall ops pools slot forked,
+  sneakier true ops pools slot forked = sneakier_serial ops pools forked.
+Proof. exact sneakier_install_at_enter. Qed.
+
+(* PARTIAL for the code as it is (slot written at construction, read at fork, deleted at exit): right for every
+   sequence of in-tree uses `with SneakierPool(...) as p: p.map(..); p.map(..)`, whatever the cache held before *)
+Theorem C14_sneakier_fresh_uses_partial : forall us pools slot forked cur,
+  sneakier false (concat (map fresh_use us)) pools slot forked = sneakier_serial (concat (map fresh_use us)) pools cur.
+Proof. exact sneakier_fresh_uses. Qed.
+
+(* REFUTED (known finding sneakier-two-pools-constructed; second trigger: one pool entered twice) *)
+Theorem C14_sneakier_two_pools_refuted : exists ops, sneakier false ops [] None None <> sneakier_serial ops [] None.
+Proof. exact sneakier_two_pools_refuted. Qed.
+
+Theorem C14_sneakier_reenter_refuted : exists ops, sneakier false ops [] None None <> sneakier_serial ops [] None.
+Proof. exact sneakier_reenter_refuted. Qed.
+
 Print Assumptions C14_map_order.
 Print Assumptions C14_map_complete_schedule.
 Print Assumptions C14_jobs_terminates.
 Print Assumptions C14_jobs_keyed_serial.
 Print Assumptions C14_callers_exception.
 Print Assumptions C14_init_serial.
+Print Assumptions C14_jobs_keyed_any_numbering.
+Print Assumptions C14_numbering_history_free.
+Print Assumptions C14_sneakier_install_at_enter.
+Print Assumptions C14_sneakier_fresh_uses_partial.
